@@ -312,6 +312,15 @@ def code_objects(flavour):
     # the constructors of the store and of its singleton shell run concurrently only in the first-use harnesses
     outer = NetworkXGraphStorage if flavour == 'shared' else NetworkXGraphStorageDisjoint
     codes += [inner.__init__.__code__, outer.__init__.__code__]
+    # a whole-graph copy made by a store method OUTSIDE its critical section is not one step: networkx walks the node and
+    # adjacency dictionaries in Python, and another thread may be scheduled in between
+    def nested(co):
+        out = [co]
+        for c in co.co_consts:
+            if hasattr(c, 'co_code'):
+                out += nested(c)
+        return out
+    codes += nested(nx.Graph.copy.__code__)
     return codes
 
 
